@@ -25,3 +25,13 @@ Proof.
   repeat split; vm_compute; reflexivity.
 Qed.
 Print Assumptions C12_hier_untree_refuted.
+
+(* sort_values(axis=0) without key function on a Frame that has no columns: StopIteration instead of the (empty) Frame *)
+Theorem C12_zero_columns_axis0_refuted :
+  exists f sel, fsv_dom 0 (fsv_cfs 0 (sf_obs f) sel true None) = true /\
+                M_frame_sort_values code_params 0 f sel true None true = Err "StopIteration".
+Proof.
+  exists (mk_sframe (mk_oframe [VStr "b"; VStr "a"] [] [] VNone) 1 1). exists [1%nat].
+  split; vm_compute; reflexivity.
+Qed.
+Print Assumptions C12_zero_columns_axis0_refuted.
